@@ -17,6 +17,7 @@ import (
 	"os"
 	"path/filepath"
 	"strconv"
+	"strings"
 )
 
 var alt = map[token.Token][]token.Token{
@@ -25,6 +26,25 @@ var alt = map[token.Token][]token.Token{
 	token.ADD: {token.SUB}, token.SUB: {token.ADD}, token.MUL: {token.QUO}, token.QUO: {token.MUL, token.REM}, token.REM: {token.QUO},
 	token.SHL: {token.SHR}, token.SHR: {token.SHL}, token.AND: {token.OR}, token.OR: {token.AND, token.XOR}, token.AND_NOT: {token.AND},
 	token.LAND: {token.LOR}, token.LOR: {token.LAND},
+}
+
+var langNames = []string{"ChineseSimplified", "ChineseTraditional", "Czech", "English", "French", "Italian", "Japanese", "Korean", "Spanish", "Portuguese"}
+
+// swapName maps an identifier that names one language's list, once, mapping or constant to the next language's.
+func swapName(n string) (string, bool) {
+	lower := func(s string) string { return strings.ToLower(s[:1]) + s[1:] }
+	for i, l := range langNames {
+		nx := langNames[(i+1)%len(langNames)]
+		switch n {
+		case l:
+			return nx, true
+		case lower(l) + "Once":
+			return lower(nx) + "Once", true
+		case lower(l) + "Mapping":
+			return lower(nx) + "Mapping", true
+		}
+	}
+	return "", false
 }
 
 type mutation struct {
@@ -59,6 +79,12 @@ func main() {
 		case *ast.CompositeLit:
 			if len(x.Elts) > 64 { // word tables
 				return false
+			}
+		case *ast.Ident:
+			// identifier swaps between the ten languages: wordlist.X, xOnce, xMapping, and the Language constants
+			if to, ok := swapName(x.Name); ok {
+				x, old := x, x.Name
+				add(x.Pos(), fmt.Sprintf("identifier %s -> %s", old, to), func() { x.Name = to }, func() { x.Name = old })
 			}
 		case *ast.BinaryExpr:
 			for _, a := range alt[x.Op] {
